@@ -138,7 +138,16 @@ def _interval(parsed: _Interval, tz: t.Any) -> Interval[t.Any]:
             dt,
         )
 
-    return pendulum.interval(
-        pendulum.instance(t.cast(datetime.datetime, parsed.start), tz=tz),
-        pendulum.instance(t.cast(datetime.datetime, parsed.end), tz=tz),
-    )
+    start = pendulum.instance(t.cast(datetime.datetime, parsed.start), tz=tz)
+    end = pendulum.instance(t.cast(datetime.datetime, parsed.end), tz=tz)
+
+    if (
+        isinstance(start, datetime.datetime)
+        and isinstance(end, datetime.datetime)
+        and (start.tzinfo is None) != (end.tzinfo is None)
+    ):
+        # With tz=None an endpoint without UTC offset stays naive:
+        # it cannot delimit an interval with an aware one
+        raise ParserError("Invalid interval: naive and aware endpoints")
+
+    return pendulum.interval(start, end)
